@@ -30,4 +30,15 @@ for m in C.MODULES:
         continue
     with C.Lock("lean"):
         C.regen_consts(m, b)
+# per-property fact extractors (lean/Hy/Gen/<X>.lean files other than the constants)
+import glob
+import importlib
+for f in sorted(glob.glob(os.path.join(os.path.dirname(os.path.abspath(__file__)), "hv", "props", "C*.py"))):
+    try:
+        mod = importlib.import_module("hv.props." + os.path.basename(f)[:-3])
+        for hook in mod.CFG.get("gen_hooks", []):
+            with C.Lock("lean"):
+                hook()
+    except Exception as e:  # noqa
+        print("warm: gen hooks of %s failed: %r" % (os.path.basename(f), e))
 sys.exit(0 if ok else 1)
